@@ -13,6 +13,7 @@ type caseWriter struct {
 	dir     string
 	imports string // Require lines
 	check   string // name of check_case function
+	preamble string // shared definitions, repeated in every shard
 	shard   int
 	cases   []string
 	names   []string
@@ -33,6 +34,7 @@ func (w *caseWriter) flush() ([]string, error) {
 		var sb strings.Builder
 		sb.WriteString(w.imports)
 		sb.WriteString("\nSet Printing Width 1000000.\nSet Printing Depth 1000000.\n")
+		sb.WriteString(w.preamble)
 		sb.WriteString("Definition cases := [\n")
 		for k := i; k < j; k++ {
 			sb.WriteString("  (" + cstr(w.names[k]) + ", " + w.cases[k] + ")")
